@@ -95,6 +95,9 @@ TD = {
     'weekend': dict(weekdays=[6, 7]),
     'emptydates': dict(dates=[], times=[((12, 0, 0, 0), (13, 0, 0, 0))]),
     'emptywd': dict(weekdays=[]),
+    # a wake-up time within the scheduler's wake-up latency before midnight
+    'lastms': dict(times=[((23, 59, 59, 999000), (0, 30, 0, 0))]),
+    'lastms2': dict(times=[((22, 0, 0, 0), (23, 59, 59, 999500))]),
 }
 TS = {
     'span': dict(span=[((2024, 2, 28, 12, 10, 0, 0), (2024, 2, 28, 12, 20, 0, 0))]),
@@ -211,6 +214,16 @@ def mk_args(name):
 DAY = wall(2024, 2, 28)     # Wednesday of a leap year
 
 
+def boff(cfg):
+    """Offset (us) of the time the blocks of this configuration follow from UTC wall time."""
+    return 0 if cfg.get('utc') else cfg.get('tz', 0) * 3600 * US
+
+
+def wboundaries(cfg, names, lo_us, hi_us):
+    o = boff(cfg)
+    return [b - o for b in boundaries(names, lo_us + o, hi_us + o)]
+
+
 def first_boundaries(name, day=DAY):
     bs = [b for b in boundaries([name], day + 1, day + 24 * 3600 * US - 1)]
     if is_span(name):
@@ -221,7 +234,7 @@ def first_boundaries(name, day=DAY):
 
 def configs(tier):
     out = []
-    singles = ['hour', 'offhour', 'wrap', 'whole', 'micro', 'adjacent', 'two', 'wed', 'leapday',
+    singles = ['lastms', 'lastms2', 'hour', 'offhour', 'wrap', 'whole', 'micro', 'adjacent', 'two', 'wed', 'leapday',
                'span', 'span-midnight', 'span-two', 'span-yearend', 'yearend']
     # S1: start instants around every boundary
     for name in singles:
@@ -231,6 +244,27 @@ def configs(tier):
                     for utc in ((False, True) if off == 0 else (False,)):
                         out.append(dict(kind='start', blocks=(name,), t0=b + off, span=2 * 3600 * US + 60 * US,
                                         read_lat=rl, utc=utc, actions=()))
+    # S1z: the local zone is far from UTC (the local date differs from the UTC date for most of
+    # the day): blocks in UTC mode follow UTC, the others local time; instants are given in the
+    # time the blocks follow
+    for name in ('span', 'span-midnight', 'hour', 'wrap', 'dates', 'yearend', 'wed', 'span-yearend'):
+        for b in first_boundaries(name)[:2]:
+            for off in (-1500, 500):
+                for tz in (14, -11):
+                    for utc in (False, True):
+                        c = dict(kind='start', blocks=(name,), span=2 * 3600 * US + 60 * US,
+                                 read_lat=1, utc=utc, actions=(), tz=tz)
+                        c['t0'] = b + off - boff(c)
+                        out.append(c)
+    # ... and a reconfiguration there
+    for old, new in (('span-f2810-2815', 'span-f2815-2920'), ('hour', 'offhour'), ('span-past', 'span')):
+        for tz in (14, -11):
+            for utc in (False, True):
+                c = dict(kind='reconfig-days', blocks=(old, 'hour'), span=int(25 * 3600 * US), read_lat=1,
+                         utc=utc, tz=tz, max_dev=0)
+                c['t0'] = DAY + 11 * 3600 * US + 50 * 60 * US - boff(c)
+                c['actions'] = (('reconfig', c['t0'] + 5 * 60 * US + 7, 0, new, 0),)
+                out.append(c)
     # plain starts of every catalogue entry, one to three blocks, mid-day
     for names in [(n,) for n in CAT] + [('hour', 'offhour'), ('wrap', 'span-midnight', 'wed'),
                                        ('span-past', 'none'), ('span-empty',), ('span-past', 'span-empty'),
@@ -317,6 +351,15 @@ def configs(tier):
                 out.append(dict(kind='jump', blocks=names, t0=DAY + 11 * 3600 * US + 30 * 60 * US,
                                 span=5 * 3600 * US, read_lat=1, utc=False,
                                 actions=(('jump', when, j),)))
+    # S4d: jumps late in the evening (the clock reset finds no later entry in today's schedule)
+    # and across midnight
+    for names in [('hour',), ('wrap', 'dates'), ('span-midnight', 'wed'), ('leapday', 'weekend'), ('mid0', 'thu')]:
+        for t0 in (DAY + 23 * 3600 * US + 5 * 60 * US, DAY + 23 * 3600 * US + 40 * 60 * US,
+                   DAY + 22 * 3600 * US + 30 * 60 * US):
+            for j in (30 * US, 600 * US, 1500 * US, 3600 * US, 2 * 3600 * US, -30 * US):
+                for when in ('mid-sleep', 'before-wakeup', 'after-wakeup', 'at-boundary'):
+                    out.append(dict(kind='jump', blocks=names, t0=t0, span=6 * 3600 * US, read_lat=1,
+                                    utc=False, actions=(('jump', when, j),)))
     # S4c: a forward jump, and much later a reconfiguration that adds a boundary shortly before
     # the scheduler's next wake-up (the scheduler must still listen for reloads then)
     for j in (30 * US, 600 * US, 3600 * US):
@@ -352,7 +395,7 @@ def one_exec(cfg, chooser, lat_alphabet):
     obs = {'samples': [], 'errors': [], 'lat_used': 0}
     with Sim(chooser, cron=True, base_unix_us=cfg['t0'], read_lat_us=cfg['read_lat'],
              latencies_us=lat_alphabet, max_iterations=200_000,
-             lat_harness_timers=False) as sim:
+             lat_harness_timers=False, tz_hours=cfg.get('tz', 0)) as sim:
         loop = sim.loop
         circuit = sim.circuit
         blocks = []
@@ -411,7 +454,7 @@ def one_exec(cfg, chooser, lat_alphabet):
                     acts.append((a[1], a))
                 else:
                     when = a[1]
-                    bs = boundaries(names, cfg['t0'] + 1, t_end)
+                    bs = wboundaries(cfg, names, cfg['t0'] + 1, t_end)
                     nxt = bs[0] if bs else cfg['t0'] + 1800 * US
                     hour_next = (cfg['t0'] // (3600 * US) + 1) * 3600 * US
                     w = {'mid-sleep': cfg['t0'] + 600 * US, 'before-wakeup': hour_next - 1000,
@@ -420,8 +463,8 @@ def one_exec(cfg, chooser, lat_alphabet):
             horizon = t_end
             guard = GUARD_US + max(lat_alphabet) + max([a[4] for _w, a in acts if a[0] == 'reconfig'] + [0])
             plan = set()
-            bs_all = boundaries(set(names) | {a[3] for _w, a in acts if a[0] == 'reconfig'},
-                                cfg['t0'], horizon + 2 * 3600 * US)
+            bs_all = wboundaries(cfg, set(names) | {a[3] for _w, a in acts if a[0] == 'reconfig'},
+                                 cfg['t0'], horizon + 2 * 3600 * US)
             for b in bs_all:
                 plan |= {b - guard, b + guard}
             for b1, b2 in zip(bs_all, bs_all[1:]):
@@ -484,7 +527,7 @@ def one_exec(cfg, chooser, lat_alphabet):
 
 def judge(cfg, obs, lat_max):
     viol = []
-    tag = f"{cfg['kind']} blocks={cfg['blocks']} t0={to_dt(cfg['t0'])} actions={cfg['actions']} read_lat={cfg['read_lat']}"
+    tag = f"{cfg['kind']} blocks={cfg['blocks']} utc={cfg.get('utc')} zone=UTC{cfg.get('tz', 0):+d}h t0={to_dt(cfg['t0'])} actions={cfg['actions']} read_lat={cfg['read_lat']}"
     for e in obs['errors']:
         viol.append((f'{e[0]}-error', f"{tag}: {e}"))
     if obs.get('alive') is False or obs.get('error') is not None:
@@ -496,7 +539,7 @@ def judge(cfg, obs, lat_max):
     for (w, label, current, outs, jump_at, err) in obs['samples']:
         if err is not None:
             continue
-        bs = boundaries(current, w - guard - 1, w + guard + 1)
+        bs = wboundaries(cfg, current, w - guard - 1, w + guard + 1)
         if any(abs(w - b) <= guard for b in bs):
             continue        # within a few milliseconds of a boundary
         if jump_at is not None:
@@ -509,7 +552,7 @@ def judge(cfg, obs, lat_max):
         if any(a[0] == 'reconfig' and abs(w - a[1]) <= guard + 2000 for a in cfg['actions']):
             continue
         for i, name in enumerate(current):
-            exp = predicate(name, w)
+            exp = predicate(name, w + boff(cfg))
             if outs[i] is not exp:
                 viol.append(('output-does-not-follow-the-clock',
                              f"{tag}: at {to_dt(w)} ({label}) block b{i} [{name}] outputs {outs[i]!r}, "
